@@ -168,7 +168,7 @@ def check(prop, tier, seed):
                     tag += 5
                 elif x < 0.97:
                     tag += 1
-                    prog.append(["lazycreate", t * 100000 + tag])
+                    prog.append([rng.choice(["lazycreate", "lazynest", "lazynest"]), t * 100000 + tag])
                 else:
                     # a chain of lazy actions, each queuing the next from inside maintain
                     d = rng.choice([1, 3, 9, 12, 20])
@@ -197,7 +197,7 @@ def check(prop, tier, seed):
                         tag += 4
                     elif x < 0.96:
                         tag += 1
-                        prog.append(["lazycreate", 900000 + tag])
+                        prog.append([rng.choice(["lazycreate", "lazynest"]), 900000 + tag])
                     else:
                         tag += 1
                         prog.append(["lazy", 900000 + tag])
